@@ -1338,6 +1338,11 @@ class Domain:
                 if k in ("detach",):
                     ap = self.path(am.get(fx[1])) if am.get(fx[1]) is not None else None
                     fx_all.add(("elem", ap) if ap else ("any",))
+                elif k == "detach_id":
+                    ap = self.path(am.get(fx[1])) if am.get(fx[1]) is not None else None
+                    fx_all.add(("elem", ap[:-4]) if ap and ap.endswith("._id") else ("any",))
+                elif k == "detach_local":
+                    fx_all.add(("any",))
                 elif k == "remove":
                     ae = am.get(fx[2])
                     ep = self.path(ae) if ae is not None else None
